@@ -12,8 +12,9 @@
 (*                                                                         *)
 (* The LRU is the machine of Lru.tla: its operators live in LruOps.tla and *)
 (* are used here unchanged, and CacheIsLru (checked by TLC) states that    *)
-(* every step of this machine with kind = "lru" is a stutter, one Get or   *)
-(* one Add of that machine - so what Lru.tla establishes for the cache     *)
+(* every step of this machine with kind = "lru" performs exactly the cache *)
+(* operations it logs: none, one Get or one Add of that machine with that  *)
+(* machine's result - so what Lru.tla establishes for the cache            *)
 (* (a Get returns the value most recently Added under that very key or a   *)
 (* miss, also when the cache is full and evicts) carries over.             *)
 (*                                                                         *)
@@ -262,13 +263,19 @@ LruOK ==
   /\ kind = "map" => order = <<>>
   /\ kind = "lru" => LruWellFormed(order, cache, cap)
 
-\* The "lru" cache of this machine IS the machine of Lru.tla: every step is a
-\* stutter of the cache, one Get or one Add of that machine (composition).
+\* The "lru" cache of this machine IS the machine of Lru.tla (composition): a
+\* request that logs no cache operation leaves the cache alone, one that logs
+\* a Get / an Add takes exactly that step of the Lru machine, and the logged
+\* Get result is what that machine returns.
 CacheStepIsLru ==
   kind = "lru" =>
-     \/ UNCHANGED <<order, cache>>
-     \/ \E h \in Hashes : LruIsGet(order, cache, h, order', cache')
-     \/ \E h \in Hashes, t \in Texts : LruIsAdd(order, cache, cap, h, t, order', cache')
+     LET ops == out'.ops IN
+     \/ Len(ops) = 0 /\ UNCHANGED <<order, cache>>
+     \/ /\ Len(ops) = 1 /\ ops[1].op = "get"
+        /\ LruIsGet(order, cache, ops[1].h, order', cache')
+        /\ ops[1].t = (IF ops[1].h \in DOMAIN cache THEN cache[ops[1].h] ELSE None)
+     \/ /\ Len(ops) = 1 /\ ops[1].op = "add"
+        /\ LruIsAdd(order, cache, cap, ops[1].h, ops[1].t, order', cache')
 CacheIsLru == [][CacheStepIsLru]_vars
 
 TypeOK ==
